@@ -12,7 +12,7 @@ EXTENDS XLParser, Json, IOUtils, CSV
 CONSTANTS H, ClearOnEnd, Export
 
 Kinds == {"ok", "okcells", "syntax", "lexerr", "errlit", "divzero", "unknownvar", "unknownfn",
-          "hostexc", "listenerexc", "cellexc", "rangeexc", "fnlistenerexc", "xlraise", "trapped", "empty", "sheet", "othersheet", "datediv", "blankdivdate", "dateplus", "blankminusdate"}
+          "hostexc", "listenerexc", "cellexc", "rangeexc", "fnlistenerexc", "xlraise", "trapped", "empty", "sheet", "othersheet", "datediv", "blankdivdate", "dateplus", "blankminusdate", "bigvalue"}
 (* (the replay additionally interleaves re-registrations of variables and functions; their effect on the    *)
 (* bindings is the SetVariable / SetFunction action of XLParser, carried by Trace_Hist)                     *)
 (* kinds during which an error singleton is raised (and caught somewhere)  *)
